@@ -276,6 +276,7 @@ func execC16(spec *RunSpec) *Result {
 		h = hashBytes([]byte(fmt.Sprint(h)), o.Out, []byte(o.Err))
 		if o.Panic != "" || o.Overrun {
 			res.addStat("c11_class_events", 1)
+			noteCrash(res, spec, i, op, o)
 			continue
 		}
 		if o.IsErr {
